@@ -528,6 +528,38 @@ type Extension struct {
 	Desc      string
 	HostDecls []NsDecl
 	Subtree   []byte
+	// Redundant: some element declares the prefix with the name it is already bound to
+	Redundant bool
+}
+
+// Embed places the extension as last child of the root element of src.
+func (e Extension) Embed(src []byte) ([]byte, error) {
+	toks, err := Lex(src)
+	if err != nil {
+		return nil, err
+	}
+	root := -1
+	for i, t := range toks {
+		if t.Kind == Start {
+			root = i
+			break
+		}
+	}
+	if root < 0 || toks[root].SelfClose {
+		return nil, fmt.Errorf("no root element with content")
+	}
+	rootEnd := Match(toks)[root]
+	c := make([]Token, 0, len(toks)+1)
+	c = append(c, toks[:rootEnd]...)
+	c = append(c, Token{Kind: Text, Raw: string(e.Subtree)})
+	c = append(c, toks[rootEnd:]...)
+	nt := toks[root]
+	nt.Attrs = append([]Attr(nil), nt.Attrs...)
+	for _, d := range e.HostDecls {
+		nt.Attrs = append(nt.Attrs, Attr{Pre: " ", Name: "xmlns:" + d.Prefix, Quote: '"', Raw: d.URI})
+	}
+	c[root] = nt
+	return Serialize(c), nil
 }
 
 var extDeclMenu = [][]NsDecl{{}, {{"c19p", "urn:c19:z"}}, {{"c19p", "urn:c19:a"}}}
@@ -559,7 +591,17 @@ func Extensions(visit func(Extension)) int {
 				var b bytes.Buffer
 				x.write(&b)
 				n++
+				red, cur := false, scope["c19p"]
+				for _, el := range []*Elem{x, y} {
+					for _, d := range el.Decls {
+						if d.URI == cur {
+							red = true
+						}
+						cur = d.URI
+					}
+				}
 				visit(Extension{
+					Redundant: red,
 					Desc:      fmt.Sprintf("host[%s] x[%s;%s;attrs%d] y[%s;%s;attrs%d]", extDeclNames[hd], x.Prefix, extDeclNames[xi/4], xi%2, y.Prefix, extDeclNames[yi/4], yi%2),
 					HostDecls: extDeclMenu[hd], Subtree: b.Bytes(),
 				})
